@@ -10,7 +10,7 @@ from pyvc.types import Int, Bool, Bytes, Str, Obj, PathStr, OneOf, ListT, NoneT,
 import contracts.C04_sign as C04
 
 PROPERTY = "C09"
-LEVEL = "other"
+LEVEL = "proof"
 EXPLANATION = ("P: the three already-signed actions on unsigned/singly-signed input, the key-type/algorithm table (5 key kinds x 5 algorithms), "
                "refusal before signing, RecursiveSigner._load_dependency. B: recursive configuration trees up to depth 3 with real keys "
                "(RecursiveSigner.__init__/recursive_sign are recursive over a JSON tree; covered by the bounded stand-in only).")
@@ -204,6 +204,110 @@ def _same(it, a, b):
 
 
 c.check("inheritance", _inheritance)
+
+# ------------------------------------------------------------------------------------------------
+# RecursiveSigner.recursive_sign: re-embedding and what is signed with what (one level; the recursion is the function's own contract).
+# At this call site Signer.sign_envelope is summarised by the part of ITS verified contract (C04) that matters here: the result is the
+# input envelope with only member 2 replaced (or SignerError / ValueError); the call and its arguments are recorded in the trace.
+def _sign_envelope_at_call_site(it, c_, fi, args, kwargs):
+    from pyvc.interp import Env
+    from pyvc.values import VTag, VDict, DEntry, VInt
+    from pyvc import clauses
+    env = Env(None, None)
+    it.bind_args(fi, args, kwargs, env)
+    inp = env.lookup("input_envelope")
+    it.assumptions_used.add("Signer.sign_envelope at the call site in RecursiveSigner: its C04 contract (result = input with only member 2 replaced; SignerError / ValueError otherwise)")
+    k = it.choose(3, "sign_envelope_outcome")
+    if k == 1:
+        it.raise_(clauses.resolve_exception(it, "SignerError"), "already signed (action error)")
+    if k == 2:
+        it.raise_(ValueError, "key refused")
+    d = VDict()
+    for key, e in inp.value.entries.items():
+        d.entries[key] = DEntry(key, e.value, e.present)
+    d.entries[2] = DEntry(2, it.fresh_bytes("signed_wrapper"))
+    res = VTag(VInt(107), d)
+    it.trace.append(("call", "Signer.sign_envelope", dict(env.vars), res))
+    return res
+
+
+def _rs_self(n_deps, omit):
+    def build(it, env):
+        from pyvc.values import VObj, VTag, VDict, DEntry, VInt, VList, VStr, VBool
+        from pyvc.types import make_value
+        ci_ = it.get_class(FC, "RecursiveSigner")
+        o = VObj(ci_)
+        d = VDict()
+        d.entries[2] = DEntry(2, it.fresh_bytes("wrapper"))
+        d.entries[3] = DEntry(3, it.fresh_bytes("manifest"))
+        d.entries["#unnamed"] = DEntry("#unnamed", it.fresh_bytes("unnamed_member"))
+        deps = []
+        for i in range(n_deps):
+            name = f"#dep{i}"
+            d.entries[name] = DEntry(name, it.fresh_bytes(f"old_dep{i}"))
+            ch = VObj(ci_)
+            ch.attrs["envelope_name"] = VStr(name)
+            deps.append(ch)
+        o.attrs.update({"envelope": VTag(VInt(107), d), "dependencies": VList(deps), "omit_signing": VBool(omit), "key_name": it.fresh_str("key_name"),
+                        "key_id": it.fresh_int("key_id", 0, 2 ** 32 - 1), "alg": make_value(it, EnumT(FB, "SuitSignAlgorithms"), "alg"), "context": it.fresh_str("context"),
+                        "kms_script": it.fresh_str("kms"), "already_signed_action": make_value(it, EnumT(FB, "SignatureAlreadyPresentActions"), "action"),
+                        "signer": VObj(it.get_class("ncs/sign_script.py", "Signer"))})
+        return o
+    return Computed(build)
+
+
+c = Contract(FC, "RecursiveSigner.recursive_sign", ["C09"])
+c.param("self", _rs_self(1, False))
+c.variants = [(f"{n}-dependencies/{'omit-signing' if om else 'signs'}", {"self": _rs_self(n, om)}) for n in (0, 1, 2) for om in (False, True)]
+c.result(TagT(107, DictT(required={2: Bytes(), 3: Bytes()})))
+c.raises("SignerError")
+c.raises("ValueError")
+
+
+def _recursive_sign_checks(it, ctx):
+    import z3
+    from pyvc import cbor
+    if ctx.outcome != "return":
+        return None
+    slf, res = ctx.arg("self"), ctx.result
+    old = ctx.old("self").attrs["envelope"].value
+    goals = []
+    child_calls = [t for t in it.trace if t[0] == "call" and t[1] == "RecursiveSigner.recursive_sign"]
+    sign_calls = [t for t in it.trace if t[0] == "call" and t[1] == "Signer.sign_envelope"]
+    deps = slf.attrs["dependencies"].items
+    goals.append(("every_named_dependency_signed_recursively_once", z3.BoolVal(len(child_calls) == len(deps) and all(c_[2]["self"] is d for c_, d in zip(child_calls, deps)))))
+    rv = res.value.entries if hasattr(res, "value") else {}
+    for i, dep in enumerate(deps):
+        name = dep.attrs["envelope_name"].conc
+        if name not in rv or i >= len(child_calls):
+            goals.append((f"dependency_re_embedded_under_the_same_name", z3.BoolVal(False)))
+            continue
+        goals.append((f"dependency_re_embedded_under_the_same_name", rv[name].value.e == cbor.enc(it, child_calls[i][3]).e))
+    goals.append(("manifest_byte_identical", z3.BoolVal(3 in rv) if 3 not in rv else rv[3].value.e == old.entries[3].value.e))
+    goals.append(("unnamed_members_byte_identical", z3.BoolVal("#unnamed" in rv) if "#unnamed" not in rv else rv["#unnamed"].value.e == old.entries["#unnamed"].value.e))
+    goals.append(("no_member_added_or_dropped", z3.BoolVal(list(rv) == list(old.entries))))
+    omit = slf.attrs["omit_signing"].conc
+    if omit:
+        goals.append(("omit_signing_envelope_is_not_signed", z3.And(z3.BoolVal(len(sign_calls) == 0), rv[2].value.e == old.entries[2].value.e if 2 in rv else z3.BoolVal(False))))
+    else:
+        goals.append(("signed_exactly_once", z3.BoolVal(len(sign_calls) == 1)))
+        if len(sign_calls) == 1:
+            a = sign_calls[0][2]
+            goals.append(("signed_with_this_nodes_own_key_algorithm_and_action", z3.And(
+                a["key_name"].e == slf.attrs["key_name"].e, a["key_id"].e == slf.attrs["key_id"].e, z3.BoolVal(a["algorithm"] is slf.attrs["alg"] or getattr(a["algorithm"], "name", 0) == getattr(slf.attrs["alg"], "name", 1)),
+                a["context"].e == slf.attrs["context"].e, a["kms_script"].e == slf.attrs["kms_script"].e,
+                z3.BoolVal(getattr(a["already_signed_action"], "name", 0) == getattr(slf.attrs["already_signed_action"], "name", 1)))))
+            # what is signed already contains the re-embedded dependencies (children first)
+            inp = a["input_envelope"].value.entries
+            for i, dep in enumerate(deps):
+                name = dep.attrs["envelope_name"].conc
+                if i < len(child_calls) and name in inp:
+                    goals.append(("dependencies_re_embedded_before_this_node_is_signed", inp[name].value.e == cbor.enc(it, child_calls[i][3]).e))
+    return goals
+
+
+c.check("recursive", _recursive_sign_checks)
+c.setup = lambda it, env: setattr(it, "sign_envelope_call_site", _sign_envelope_at_call_site)
 
 # ================================================================================================
 # B — bounded stand-in
